@@ -45,6 +45,11 @@ CLAIMED = {
         text="For 1-d chains in all four declared Levy-Khintchine representations x finite/infinite variation flag x diffusion on/off, and for each margin of 2-d / 3-d copula chains (aliased and per-axis grids, refined in place), TLC checks process_drift + sum_k x_k rate_k = canonical drift of the truncated process + its large-jump first moment (exact integers in lattice units), and equivalent variance = sigma^2 + [infinite variation] second moment of the atoms in the central cell.",
         note="Trusted: TLC, atomic stubs, exact-integer sensor. Lattice grids only (exact moments). The x^2-oscillation bound on the total variance is not evaluated. Copula chains with the finite-variation flag only.",
         ref="5 (C04)"),
+    "C03": dict(
+        technique="TLA+ spec Coupling.tla (next_level state machine + telescoping as an identity between sets of atoms) model-checked by TLC; real CouplingMarkovChain / CouplingSDE objects driven through next_level and trace-validated by TLC (coupling map observed by sweeping the coupling uniform)",
+        text="TLC checks for 5 grid shapes and levels 0..3 that the atoms the coupling sends to each coarse state are exactly the atoms of that state's cell in the level-(l-1) chain (valid for any weights), locality, and that the coarse coefficient / drift are the previous level's fine ones. Real one-dimensional couplings (every sampling method, lattice / geometric / probability-step grids, finite and infinite variation flag, sigma on/off) are driven through next_level up to 3 times; per level TLC validates on recorded exact data: nesting of the in-place refined grid, locality of every move, telescoping against the PREVIOUS level's recorded cells, coarse diffusion coefficient and deterministic drift = previous fine ones, both diffusion components = cumulative sums of the same scripted increments scaled by their own coefficient. The SDE coupling's hand-over of coefficient and drift (path_managers=None route) is validated too.",
+        note="Trusted: TLC, atomic stubs, rank sensor. The Levy-copula coupling (d >= 2) is not yet validated by this check: a probe shows its coarse component does not have the previous level's rates for mixed-parity increments (DESIGN.md section 7, defect 10).",
+        ref="5 (C03)"),
 }
 
 NOT_APPLICABLE = {
